@@ -10,7 +10,7 @@
                                              "ok x<data> g=<stuck>" or "E:<class> x<data before the error> g=<stuck>";
                                              g=1: the decoder's goroutine is blocked for ever.
                                              (a long document is spread over several tokens: payload spec, then raw hex)
-     armor dec0 ...                          the same for the pinned code (Model/ArmorStream.v dec_read0)
+     armor dec0 ...                          the same for the code before /repo commit 0dac441 (dec_read0)
      armor rt <payload> <sizes> <srcpat> <rbufpat>   dec of (stream ...)
      armor strict <doc> <hex>...             armor_decode (whole-document meaning)
      armor tok <doc> <hex>...                the token stream (Model/Armor.v tokens), Text() applied
@@ -61,11 +61,15 @@ Definition sres_print (r : sres tks) : bytes :=
    | None => bs "!fuel"
    end) ++ bs " g=" ++ bool_print (sp_stuck (s_prod r)).
 
+(* number of Reads allowed: more than the characters that can reach the pipe (Text() at most triples a
+   token's bytes); "!fuel" in the output would say that it was not enough *)
+Definition fuel_for (doc : bytes) : nat := S (S (S (3 * List.length doc))).
+
 Definition stream_run (srcpat rbufpat : list nat) (doc : bytes) : bytes :=
-  sres_print (armor_stream_decode (cut_doc srcpat doc) (size_fun rbufpat) (S (S (List.length doc)))).
-(* the pinned code, without proposed-fixes/C10-decoder-goroutine-leak-b64err.diff *)
+  sres_print (armor_stream_decode (cut_doc srcpat doc) (size_fun rbufpat) (fuel_for doc)).
+(* the code before /repo commit 0dac441 (proposed-fixes/C10-decoder-goroutine-leak-b64err.diff) *)
 Definition stream_run0 (srcpat rbufpat : list nat) (doc : bytes) : bytes :=
-  sres_print (armor_stream_decode0 (cut_doc srcpat doc) (size_fun rbufpat) (S (S (List.length doc)))).
+  sres_print (armor_stream_decode0 (cut_doc srcpat doc) (size_fun rbufpat) (fuel_for doc)).
 
 Definition tok_print (t : tok) : bytes :=
   match t with
